@@ -179,7 +179,7 @@ def check_sequence(stats, m, envs, steps, var, other, sub="sequence"):
             continue
         case = make_case(sub, m, None, var=var, other=other, points=[M.point_to_json(x) for x in envs],
                          steps=[list(x) for x in steps[:k + 1]])
-        compare(stats, o, out, m, env, var, route, case, sub, note=f" on one object after [{'; '.join(trail[:-1])[-600:]}]")
+        compare(stats, o, out, m, env, var, route, case, sub, note=(f" on one object after [{'; '.join(trail[:-1])[-600:]}]" if trail[:-1] else " (first query on the object)"))
         answered += 1
         stats.count("sequence-answers")
     if answered >= 2:
